@@ -17,7 +17,7 @@ spy(P.Project, "update_cache", "signac.project.Project.update_cache")
 CODE = ["signac.job.Job.document (BufferedJSONAttrDict, write_concern=True)", "signac.project.Project.document", "signac.project.Project.update_cache / _read_cache",
         "synced_collections JSONCollection._save_to_resource / buffered flush", "signac.buffered"]
 BOUNDS = {"scenarios": "job document write on empty / small / 2 KiB document; document key delete; whole reset; project document write; buffered block flushing two jobs; update_cache growing, shrinking+growing, first time",
-          "crash": "before ANY step k >= 0 (unbounded), or torn write of 0 / 1 / half / len-1 bytes at step k", "fault": "step k fails with EIO / ENOSPC / EACCES / EROFS",
+          "crash": "before ANY step k >= 0 (unbounded), or torn write of 0 / 1 / half / len-1 bytes at step k", "fault": "step k fails with EIO / ENOSPC / EACCES / EROFS, or the write at step k is short (device full: half of the data is accepted, a buffered writer then gets ENOSPC, a raw writer only a short count)",
           "reader": "one reader opening the target before ANY writer step i and reading it before ANY writer step j >= i (all interleavings of a 2-step reader with the writer)",
           "thread-safety switch": "both states of synced_collections' multithreading support (enabled = default, disabled)"}
 OUTSIDE = ["power-loss ordering / fsync", "network file systems", "readers that read in several chunks"]
@@ -163,7 +163,7 @@ def _crash_case(scn, mode, k, t, e, mt):
                 problems.append(("unexpected new file", k_))
             if k_ in before and before[k_] != v and ("/p/" + k_) not in targets:
                 problems.append(("other file changed", k_))
-        if mode == 3 and plan.fired and not crashed:
+        if mode in (3, 4) and plan.fired and not crashed:
             # handled error: the cache temp file must be cleaned up; the call must not return normally with the target unchanged-but-claimed-written
             if exc is None:
                 for tgt, new in zip(targets, news):
@@ -195,11 +195,15 @@ def h_crash__reach(scn: int, mode: int, k: int, t: int, mt: bool):
 
 
 def h_fault(scn: int, k: int, e: int, mt: bool):
-    assert 0 <= scn <= NSCN and 0 <= k and 0 <= e < 4 and part_ok(scn)
+    """a step fails with an errno (e < 4) or a write is short because the device is full (e == 4)"""
+    assert 0 <= scn <= NSCN and 0 <= k and 0 <= e <= 4 and part_ok(scn)
     fresh_path()
-    scn, e, mt = ci(scn, 0, NSCN), pick([errno.EIO, errno.ENOSPC, errno.EACCES, errno.EROFS], e), cb(mt)
+    scn, e, mt = ci(scn, 0, NSCN), ci(e, 0, 4), cb(mt)
     with nt():
-        r = _crash_case(scn, 3, k, 0, e, mt)
+        if e == 4:
+            r = _crash_case(scn, 4, k, -2, 0, mt)
+        else:
+            r = _crash_case(scn, 3, k, 0, [errno.EIO, errno.ENOSPC, errno.EACCES, errno.EROFS][e], mt)
     reached()
     assert r[0]
 
